@@ -696,7 +696,7 @@ def exhaustive_small(tier):
                         prev = j
                 chunks.append(s[prev:])
                 k += 1
-                out.append(case_from([b"h1", b"h10"], True, False, {(1, "oe"[k % 2]): chunks}, tags=["exhaustive"]))
+                out.append(case_from([b"h1", b"h10"], k % 4 != 3, False, {(1, "oe"[k % 2]): chunks}, tags=["exhaustive"]))
     return out
 
 
